@@ -1,10 +1,11 @@
 (* C16 - Mesopore size distributions conserve volume and follow the Kelvin equation.
    psd_pygapsdh / psd_bjh / psd_dollimore_heal / psd_mesoporous are hand-written models of psd_meso.py (Charact/PsdMeso.v),
-   compared with the implementation on every run; kelvin_radius, kelvin_radius_kjs, get_meniscus_geometry, thickness_halsey,
+   compared with the implementation on every run; the three recurrences are also GENERATED from their source (psd_*_gen, Gen/PsdMesoGen.v,
+   tools/py2v_psdmeso.py) and PROVED equal to the hand-written ones (recurrences_are_the_generated_ones); kelvin_radius, kelvin_radius_kjs, get_meniscus_geometry, thickness_halsey,
    thickness_harkins_jura are GENERATED from models_kelvin.py / models_thickness.py (Gen/CharactGen.v).
    Property theorems only, each closed by `exact` + Print Assumptions. *)
 From Coq Require Import Reals Lra QArith ZArith String List Bool Sorted.
-From PG Require Import Lib.Num Lib.Py Gen.CharactGen Charact.Ols Charact.Window Charact.ListAux Charact.PsdMeso Charact.Kelvin.
+From PG Require Import Lib.Num Lib.Py Gen.CharactGen Charact.Ols Charact.Window Charact.ListAux Charact.PsdMeso Charact.Kelvin Gen.PsdMesoGen Charact.PsdMesoTie.
 Import ListNotations.
 Open Scope R_scope.
 Open Scope string_scope.
@@ -28,6 +29,39 @@ Theorem zero_thickness_volumes_are_increments : forall (vol thick kr : list R) (
   Rsum (p_volumes r) = match desc RNum vol thick kr with [] => 0 | x :: _ => fst x - fst (last (desc RNum vol thick kr) x) end.
 Proof. exact zero_thickness_volumes. Qed.
 Print Assumptions zero_thickness_volumes_are_increments.
+(* the three recurrences GENERATED from the bodies of psd_pygapsdh / psd_bjh / psd_dollimore_heal (vectorised prelude as stencils, loop bodies
+   in source order, returned arrays) ARE the hand-written ones, for every carrier, input and geometry string: every theorem of this file is a
+   theorem about the translated source *)
+Theorem recurrences_are_the_generated_ones : forall (N : Num) (vol thick kr : list N) (g : string),
+  psd_pygapsdh_gen N vol thick kr g = psd_pygapsdh N vol thick kr g /\ psd_bjh_gen N vol thick kr g = psd_bjh N vol thick kr g /\
+  psd_dollimore_heal_gen N vol thick kr g = psd_dollimore_heal N vol thick kr g.
+Proof. exact (fun N vol thick kr g => conj (psd_pygapsdh_gen_eq N vol thick kr g) (conj (psd_bjh_gen_eq N vol thick kr g) (psd_dollimore_heal_gen_eq N vol thick kr g))). Qed.
+Print Assumptions recurrences_are_the_generated_ones.
+(* ... in particular: with zero thickness the pore volumes of the TRANSLATED functions are exactly the successive volume changes - every one
+   of them, however small beside the others - and sum to the total change *)
+Theorem zero_thickness_volumes_are_increments_generated : forall (vol thick kr : list R) (g : string) (r : psd_result RNum),
+  zero_thick (desc RNum vol thick kr) ->
+  (psd_pygapsdh_gen RNum vol thick kr g = Ok r \/ psd_bjh_gen RNum vol thick kr g = Ok r \/ psd_dollimore_heal_gen RNum vol thick kr g = Ok r) ->
+  p_volumes r = rev (incr (desc RNum vol thick kr)) /\
+  Rsum (p_volumes r) = match desc RNum vol thick kr with [] => 0 | x :: _ => fst x - fst (last (desc RNum vol thick kr) x) end.
+Proof. exact zero_thickness_volumes_gen. Qed.
+Print Assumptions zero_thickness_volumes_are_increments_generated.
+Theorem widths_are_2_r_plus_t_generated : forall (vol thick kr : list R) (g : string) (r : psd_result RNum),
+  length vol = length thick -> length thick = length kr ->
+  (psd_pygapsdh_gen RNum vol thick kr g = Ok r \/ psd_bjh_gen RNum vol thick kr g = Ok r \/ psd_dollimore_heal_gen RNum vol thick kr g = Ok r) ->
+  p_widths r = removelast (map2 (fun t k => 2 * (t + k)) thick kr).
+Proof. exact widths_are_2_r_plus_t_gen. Qed.
+Print Assumptions widths_are_2_r_plus_t_generated.
+(* psd_mesoporous hands the Kelvin model THIS call's temperature and adsorbate reads, and psd_meso.py keeps nothing between calls (generated tables) *)
+Theorem psd_mesoporous_kelvin_inputs_are_documented :
+  psd_mesoporous_kelvin_inputs =
+    [("temperature", IsothermTemperature); ("liquid_density", AdsorbateMethodAtIsothermTemperature "liquid_density");
+     ("adsorbate_molar_mass", AdsorbateMethod "molar_mass"); ("adsorbate_surface_tension", AdsorbateMethodAtIsothermTemperature "surface_tension")].
+Proof. exact kelvin_inputs_documented_l. Qed.
+Print Assumptions psd_mesoporous_kelvin_inputs_are_documented.
+Theorem psd_meso_keeps_no_state_between_calls : psd_meso_module_writes = [].
+Proof. exact psd_meso_keeps_no_state_l. Qed.
+Print Assumptions psd_meso_keeps_no_state_between_calls.
 (* distribution x width increment = pore volume (descending-pressure order; BJH / DH work with radii, width = 2 radius) *)
 Theorem distribution_times_dwidth_pygapsdh : forall (vol thick kr : list R) (g : string) (r : psd_result RNum),
   psd_pygapsdh RNum vol thick kr g = Ok r ->
